@@ -649,6 +649,15 @@ func (c *client) loopWrite() {
 		switch c.filter.Do(req) {
 		case Continue:
 		case Stop:
+			// The filter has answered the request, nothing is written for
+			// it. Requests encoded before it must not wait in the buffer
+			// until the next request shows up.
+			if len(c.pendingReqs) == 0 {
+				if err = c.enc.Flush(); err != nil {
+					c.logger.Warnf("loop write exit: %v", err)
+					return
+				}
+			}
 			continue
 		}
 
